@@ -112,6 +112,7 @@ type Sched struct {
 	Panic      any
 	PanicStack string
 	Diverged   string // non-empty: replay divergence (engine error)
+	MarkAt     int    // trace length when Mark was called (exploration starts deviating here)
 	StepLimit  bool
 
 	// configuration
@@ -615,6 +616,14 @@ func Quiesce() {
 		return
 	}
 	s.point(t, opQuiesce, nil)
+}
+
+// Mark records that set-up is over: explorers only deviate at points recorded
+// after the mark (set-up code has nothing to race with).
+func Mark() {
+	if S != nil {
+		S.MarkAt = len(S.Trace)
+	}
 }
 
 // Yield is a pure scheduling point: the caller stays enabled, other threads may
